@@ -832,6 +832,38 @@ pub fn make_any<T>() -> T { unreachable!() }
 pub fn into_any<T, U>(_: T) -> U { unreachable!() }
 
 // ------------------------------------------------------------------------------------------
+// a field type whose *inherent* methods are named like the trait methods the templates need and answer differently: generated code that
+// uses method-call syntax (`a.ne(&b)`, `x.clone()`, `v.into()`) instead of a path call gets the decoys
+#[derive(Debug, Clone, Copy, PartialEq, Eq, PartialOrd, Ord, Hash, Default)]
+pub struct InhCore(pub u8);
+#[derive(Clone, Copy, PartialEq, Eq, PartialOrd, Ord, Hash, Default)]
+pub struct Inh(pub InhCore);
+impl fmt::Debug for Inh {
+    fn fmt(&self, f: &mut fmt::Formatter<'_>) -> fmt::Result { write!(f, "Inh({})", (self.0).0) }
+}
+pub fn inh(n: u8) -> Inh { Inh(InhCore(n)) }
+impl From<Inh> for u8 { fn from(x: Inh) -> u8 { (x.0).0 } }
+impl From<Inh> for u16 { fn from(x: Inh) -> u16 { (x.0).0 as u16 } }
+#[allow(clippy::should_implement_trait, clippy::wrong_self_convention)]
+impl Inh {
+    pub fn eq(&self, _: &Self) -> bool { true }
+    pub fn ne(&self, _: &Self) -> bool { false }
+    pub fn clone(&self) -> Self { inh(99) }
+    pub fn clone_from(&mut self, _: &Self) { *self = inh(98) }
+    pub fn cmp(&self, _: &Self) -> Ordering { Ordering::Equal }
+    pub fn partial_cmp(&self, _: &Self) -> Option<Ordering> { None }
+    pub fn lt(&self, _: &Self) -> bool { false }
+    pub fn hash<H: Hasher>(&self, state: &mut H) { state.write_u8(0xAA) }
+    pub fn fmt(&self, f: &mut fmt::Formatter<'_>) -> fmt::Result { f.write_str("decoy") }
+    pub fn into(self) -> u8 { 200 }
+    pub fn default() -> Self { inh(77) }
+    pub fn deref(&self) -> &u8 { &7 }
+    pub fn to_owned(&self) -> Self { inh(96) }
+    pub fn borrow(&self) -> &u8 { &7 }
+    pub fn as_ref(&self) -> &u8 { &7 }
+}
+
+// ------------------------------------------------------------------------------------------
 // C12: a where-clause the type needs in order to be well-formed
 pub trait Assoc {
     type Out: fmt::Debug + Clone + PartialEq + Default;
